@@ -102,7 +102,10 @@ def xref_model(r, ncls=None):
     ncls = ncls or r.randint(2, 8)
     malformed = r.random() < 0.04       # a few models carry a type descriptor that is no descriptor at all
     pk = r.choice(["p", "q/r"])
-    descs = ["L%s/C%d;" % (pk, i) for i in range(ncls)]
+    # some internal classes live in packages that look like the platform's (apps do bundle android/support, org/apache, org/json ...)
+    api_pk = ["android/support/v4", "org/apache/x", "org/json", "junit/framework", "javax/x", "dalvik/x",
+              "com/android/internal/util", "org/w3c/dom", "org/xmlpull/v1", "java/x"]
+    descs = ["L%s/C%d;" % ((r.choice(api_pk) if r.random() < 0.2 else pk), i) for i in range(ncls)]
     externals = ["Ljava/lang/StringBuilder;", "Landroid/util/Log;", "Lext/E;", "[Ljava/lang/String;", "[I"]
     strings = ["s%d" % i for i in range(r.randint(2, 5))] + ["m0", "f0", descs[0]]
     # declare members first so that references can point anywhere
@@ -396,16 +399,22 @@ class _Structured:
                 if kind < 0.35:
                     # several handlers for one try range: each its own block, all joining after the try
                     extra = []
+                    # inside a loop the handlers may jump back to the loop head instead ("retry loop")
+                    # or to the start of the try range itself: while (true) { try { ...; break; } catch (A) {} catch (B) {} }
+                    kj = r.random()
+                    ljoin = ls if kj < 0.25 else (loop[0] if (loop and kj < 0.55) else lafter)
                     for ty in r.sample(["Ljava/lang/IllegalStateException;", "Ljava/io/IOException;",
                                         "Ljava/lang/NullPointerException;", "Ljava/lang/ArithmeticException;"], r.randint(1, 2)):
                         lx = self.label()
-                        self.emit("goto16", lafter)
+                        self.emit("goto16", ljoin)
                         self.emit("label", lx)
                         self.emit("move-exception", self.exc_reg)
                         self.simple()
                         if r.random() < 0.3:
                             self.emit("return", "", self.var())
                         extra.append([ty, lx])
+                    if ljoin is not lafter:
+                        self.emit("goto16", ljoin)
                     self.emit("label", lafter)
                     catchall = None
                     if r.random() < 0.3:
